@@ -293,7 +293,7 @@ def misuse_rules(facts, rep):
         hit = [p for p in ps if pred(p)]
         return bool(hit) and all(outcome(p)[0] in ("Err", "ErrProp") for p in hit)
     rows = {
-        "too-long": row(lambda p: decided(p, r"^Gt\(.*len\(.*ZIP64_ENTRY_THR") == 1),
+        "too-long": row(lambda p: decided(p, r"^Gt\(.*len\(.*, 65535\)") == 1),
         "truncated-header": row(lambda p: decided(p, r"^Lt\(.*len\(.*, 4\)") == 1),
         "zip64-id": row(lambda p: decided(p, r"^Eq\(ok\(ReadBytesExt::read_u16.*, 1\)") == 1),
         "size-exceeds": row(lambda p: decided(p, r"^Gt\(\(ok\(ReadBytesExt::read_u16.* as usize\), Sub\(") == 1),
@@ -305,7 +305,7 @@ def misuse_rules(facts, rep):
     for k, v in rows.items():
         ok &= rep.check(v, rule, "validate:%s" % k, where(va, va.span), "row '%s' => Err" % k, "extra-data validation row '%s' is missing or does not reject" % k)
     okp = [p for p in ps if outcome(p)[0] == "Ok"]
-    good = bool(okp) and all(decided(p, r"^Gt\(.*len\(.*ZIP64_ENTRY_THR") == 0 for p in okp)
+    good = bool(okp) and all(decided(p, r"^Gt\(.*len\(.*, 65535\)") == 0 for p in okp)
     ok &= rep.check(good, rule, "validate:ok-only-when-all-pass", where(va, va.span), "Ok only after the length row passed", "validation can succeed without the length test")
     # the reserved-id test scans the whole table linearly (the table is not sorted)
     clo = facts.closures_of(va)
